@@ -140,7 +140,7 @@ PROPS = {
     },
     "C14": {
         "families": [{"family": "kv", "chk": "kv_chk_C14", "corr": "kv_corr_C14", "model_chk": True}, {"family": "ttl"}],
-        "level_text": "Proved on the model for all histories: the expiry in force after every successful call is the one it was given (absolute, or now+offset), kept by PreserveExpiry and xattr-only writes, 0 after deletes (C14_exp_in_force, every entry point); in every reachable state a document carrying expiry T has the expiry manager armed for a time <= T (C14_timer_covers_min_exp: invariant over postNewEvent/Touch scheduling, the timer callback and reopen); a firing at time t tombstones exactly the documents with 0 < exp <= t, posts a deletion event for each and leaves all others untouched, so none expires early (C14_fire_correct, C14_never_early). Tie to the code: the kv family compares the expiry manager's nextExp (hook accessor) and every stored expiry exactly after every step, with timer firings placed by the history; the ttl family runs real timers (2-4 s deadlines, shorten/lengthen/preserve/clear, close and reopen before or after the deadline) and checks poll times. Partial: 'within a few seconds' assumes an armed Go timer fires; the check-then-delete window inside a firing (a writer racing expireDocuments) is outside the sequential model.",
+        "level_text": "Proved on the model for all histories: the expiry in force after every successful call is the one it was given (absolute, or now+offset), kept by PreserveExpiry and xattr-only writes, 0 after deletes (C14_exp_in_force, every entry point); in every reachable state a document carrying expiry T has the expiry manager armed for a time <= T (C14_timer_covers_min_exp: invariant over postNewEvent/Touch scheduling, the timer callback and reopen); a firing at time t tombstones exactly the documents with 0 < exp <= t, posts a deletion event for each and leaves all others untouched, so none expires early (C14_fire_correct, C14_never_early). Tie to the code: the kv family compares the expiry manager's nextExp (hook accessor) and every stored expiry exactly after every step, with timer firings placed by the history; the ttl family runs real timers (2-4 s deadlines, shorten/lengthen/preserve/clear, close and reopen before or after the deadline) and checks poll times. Partial: 'within a few seconds' assumes an armed Go timer fires; the check-then-delete window inside a firing (a writer racing expireDocuments) is outside the sequential model. The whole executable trace checker (armed deadline covers every stored expiry after every step; a firing tombstones exactly the due documents with a deletion event each and leaves the rest alone; each call leaves the expiry its arguments say) is proved to accept every history of the model (C14_checker_accepts_every_model_history, KvC14Trace.v).",
         "level_note": "Real-time part uses wall-clock polls with a 3 s allowance; relative expiries are compared only when the wall-clock second did not change during the call. The expiry manager's nextExp is read through the verif-only accessor VerifNextExp. Trusted: Coq kernel + vm_compute, Go harness.",
         "assumptions": KV_ASSUME + ["an armed time.AfterFunc timer fires at its deadline (Go runtime)", "timer firings in the kv family are placed by the history (the real timer's callback is parked by the expiry.fire hook and the callback is run synchronously by 'expire' steps)"],
     },
